@@ -347,7 +347,7 @@ func gen(tier string, rng *h.Rng, emit func(string)) {
 				sh[a] = st[b]
 			}
 			S = append(S, joinOr(sh, ","))
-			if nws > 1 && e == nws-1 && i%3 == 1 {
+			if nws > 1 && e == nws-1 && (i/3)%2 == 1 {
 				dropE, dropPos = e, rng.Intn(len(sh)+1)
 			}
 		}
